@@ -114,7 +114,7 @@ package board
 //@   split b.STM in 0..1
 //@   split to & 7 in 0..7
 //@   timeout 120
-//@   ensures [ep] implies(epPre(pos(b), dp), result == epAns(pos(b), dp))
+//@   ensures [ep] implies(epPre(noClocks(pos(b)), dp), result == epAns(noClocks(pos(b)), dp))
 //@   modifies nothing
 //@   nopanic
 //@   loop 1: unroll 2
@@ -143,6 +143,7 @@ package board
 //@   ensures [fifty]     fifty(pos(b)) == fifty(succ(p0, m))
 //@   ensures [fiftyNoWrap] int64(b.FiftyCnt) == ite(pieceAt(p0, mvFrom(m)) == 1 || pieceAt(p0, capSq(p0, m)) != 0, 0, int64(old(b.FiftyCnt)) + 1)
 //@   ensures [fullmoves] full(pos(b)) == full(succ(p0, m))
+//@   ensures [ep]        implies(epPre(noClocks(p0), uint16(m)) && mvPromo(uint16(m)) == 0, uint8(b.EnPassant) == ite(isDouble(p0, uint16(m)) && epAns(noClocks(p0), uint16(m)), midSq(uint16(m)), 0))
 //@   ensures [rep*]       repOK(b)
 //@   ensures [hash*]      hashOK(b)
 //@   ensures [history]   len(b.hashes) == old(len(b.hashes)) + 1 && implies(0 <= gi && gi < old(len(b.hashes)), b.hashes[gi] == old(b.hashes[gi]))
@@ -154,3 +155,121 @@ package board
 //@   hyp validPos(p) && pseudo(p, m)
 //@   concl [light]   lightPos(p)
 //@   concl [movable] movable(p, m)
+//@
+//@ # ---- C05: the pseudo-legality test accepts exactly the rule-defined pseudo-legal encodings
+//@ func (*Board).IsPseudoLegal
+//@   props C05
+//@   requires repOK(b) && validPos(pos(b)) && m < 1<<15
+//@   use repInstance(b, m.From())
+//@   use repInstance(b, m.To())
+//@   ensures [iff] result == pseudo(pos(b), uint16(m))
+//@   modifies nothing
+//@   nopanic
+//@
+//@ # ---- C10: repetition count
+//@ import count.smt2
+//@ axiom occUnfold(a $HashArr, t Hash, i int)
+//@   concl occUnfoldOK(a, t, uint64(i))
+//@ axiom occRange(a $HashArr, t Hash, i int)
+//@   hyp i < 1<<40
+//@   concl occRangeOK(a, t, uint64(i))
+//@
+//@ func (*Board).Threefold
+//@   props C10
+//@   requires len(b.hashes) < 1<<40
+//@   ensures [count] implies(len(b.hashes) > 0, int64(result) == min(3, 1 + occCount(arr(b.hashes), b.hashes[len(b.hashes)-1], uint64(len(b.hashes) - 5))))
+//@   ensures [empty] implies(len(b.hashes) == 0, result == 1)
+//@   modifies nothing
+//@   nopanic
+//@   use occUnfold(arr(b.hashes), hash, ix) at loop1
+//@   use occRange(arr(b.hashes), hash, ix) at loop1
+//@   use occRange(arr(b.hashes), hash, ix - 2) at loop1
+//@   loop 1: invariant -4 <= ix && ix <= len(b.hashes) - 5 && 1 <= cnt && cnt <= 2 && hash == b.hashes[len(b.hashes)-1]
+//@   loop 1: invariant uint64(cnt) - 1 + occCount(arr(b.hashes), hash, uint64(ix)) == occCount(arr(b.hashes), hash, uint64(len(b.hashes) - 5))
+//@
+//@ # ---- null moves (C03, C04)
+//@ func (*Board).MakeNullMove
+//@   props C03 C04
+//@   requires repOK(b) && hashOK(b)
+//@   ensures [state]   b.STM == old(b.STM) ^ 1 && b.EnPassant == 0 && b.Castles == old(b.Castles) && b.FiftyCnt == old(b.FiftyCnt) && b.fullMoves == old(b.fullMoves)
+//@   ensures [place]   b.Colors == old(b.Colors) && b.Pieces == old(b.Pieces) && b.SquaresToPiece == old(b.SquaresToPiece)
+//@   ensures [token]   Square((uint64(result) >> 12) & 63) == old(b.EnPassant)
+//@   ensures [hash]    hashOK(b)
+//@   ensures [history] len(b.hashes) == old(len(b.hashes)) + 1 && implies(0 <= gi && gi < old(len(b.hashes)), b.hashes[gi] == old(b.hashes[gi]))
+//@   modifies b.*
+//@   nopanic
+//@
+//@ scenario nullMoveRoundTrip(b *Board)
+//@   props C03
+//@   requires repOK(b) && len(b.hashes) >= 1
+//@   do r := inline b.MakeNullMove()
+//@   do inline b.UndoNullMove(r)
+//@   ensures [pos]     pos(b) == old(pos(b))
+//@   ensures [stp]     b.SquaresToPiece == old(b.SquaresToPiece) && b.Pieces[0] == old(b.Pieces[0])
+//@   ensures [history] len(b.hashes) == old(len(b.hashes)) && implies(0 <= gi && gi < len(b.hashes), b.hashes[gi] == old(b.hashes[gi]))
+//@
+//@ # ---- hash from scratch (C04)
+//@ define zmask(b, c, mask) = xorall(i, 0, 63, ite(bit(mask, i), piecesRand[c][b.SquaresToPiece[i]][i], 0))
+//@
+//@ lemma zmaskStep(b *Board, c Color, done BitBoard, sq Square)
+//@   props C04
+//@   split sq in 0..63
+//@   hyp c <= 1 && onBoard(sq) && !bit(done, sq)
+//@   concl zmask(b, c, done | 1<<uint64(sq)) == zmask(b, c, done) ^ piecesRand[c][b.SquaresToPiece[sq]][sq]
+//@
+//@ lemma zmaskSplit(b *Board)
+//@   props C04
+//@   concl zplace(b.Colors, b.SquaresToPiece) == zmask(b, Color(0), b.Colors[0]) ^ zmask(b, Color(1), b.Colors[1])
+//@
+//@ lemma zmaskEmpty(b *Board, c Color)
+//@   props C04
+//@   hyp c <= 1
+//@   concl zmask(b, c, BitBoard(0)) == 0
+//@
+//@ func (Board).calculateHash
+//@   props C04
+//@   opaque zmask zplace
+//@   requires b.STM <= 1 && 0 <= b.EnPassant && b.EnPassant < 64 && all(i, 0, 63, b.SquaresToPiece[i] <= 6)
+//@   use zmaskEmpty(b, 0) at entry
+//@   use zmaskEmpty(b, 1) at entry
+//@   ensures [zhash] result == zhash(b)
+//@   modifies nothing
+//@   nopanic
+//@   use zmaskSplit(b) at exit
+//@   use zmaskStep(b, color, b.Colors[color] &^ occ, occ.LowestSet()) at loop2
+//@   loop 1: unroll 2
+//@   loop 2: invariant color <= 1 && occ & ^b.Colors[color] == 0 && hash == pre(hash) ^ zmask(b, color, b.Colors[color] &^ occ)
+//@   loop 3: unroll 4
+//@
+//@ func (*Board).ResetHash
+//@   props C04 C10
+//@   requires b.STM <= 1 && 0 <= b.EnPassant && b.EnPassant < 64 && all(i, 0, 63, b.SquaresToPiece[i] <= 6)
+//@   ensures [single] len(b.hashes) == 1 && b.hashes[0] == zhash(b)
+//@   modifies b.hashes
+//@   nopanic
+//@
+//@ # ---- C03: undoing a move restores everything.  Both bodies are executed in sequence on a symbolic
+//@ # ---- board; the token r is whatever MakeMove produced.
+//@ scenario makeUndo(b *Board, m move.Move)
+//@   props C03
+//@   thorough-only
+//@   requires repOK(b) && lightPos(pos(b)) && movable(pos(b), uint16(m)) && len(b.hashes) >= 1 && 0 <= b.FiftyCnt
+//@   use repInstance(b, m.From())
+//@   use repInstance(b, m.To())
+//@   use repInstance(b, b.CaptureSq(m))
+//@   do r := inline b.MakeMove(m)
+//@   do inline b.UndoMove(m, r)
+//@   ensures [placement] samePlacement(pos(b), old(pos(b)))
+//@   ensures [state]     b.STM == old(b.STM) && b.EnPassant == old(b.EnPassant) && b.Castles == old(b.Castles) && b.FiftyCnt == old(b.FiftyCnt) && b.fullMoves == old(b.fullMoves)
+//@   ensures [stp*]      b.SquaresToPiece == old(b.SquaresToPiece) && b.Pieces[0] == old(b.Pieces[0])
+//@   ensures [history]   len(b.hashes) == old(len(b.hashes)) && implies(0 <= gi && gi < len(b.hashes), b.hashes[gi] == old(b.hashes[gi]))
+//@
+//@ lemma clocksIrrelevant(p $Pos, m $Mv)
+//@   props C02
+//@   concl validPos(noClocks(p)) == validPos(p) && pseudo(noClocks(p), m) == pseudo(p, m) && existsLegalEP(noClocks(p), m) == existsLegalEP(p, m)
+//@
+//@ # the e.p. field of the successor position is, by definition, the midpoint of a double push iff a legal e.p. capture exists
+//@ lemma succEpField(p $Pos, m $Mv)
+//@   props C02
+//@   hyp validPos(p) && pseudo(p, m)
+//@   concl ep(succ(p, m)) == ite(isDouble(p, m) && existsLegalEP(p, m), midSq(m), 0) && implies(isDouble(p, m), mvPromo(m) == 0)
